@@ -198,11 +198,38 @@ fn gen_ops(r: &mut Rng, fam: Family, lo: usize, hi: usize, so_far: &[Op]) -> Vec
 }
 
 pub fn gen_scenario(r: &mut Rng, small: bool) -> Scenario {
-    let fam = if r.pct(35) { Family::Select } else { *r.pick(ALL_FAMILIES) };
+    let fam = if r.pct(if small { 60 } else { 35 }) { Family::Select } else { *r.pick(ALL_FAMILIES) };
     let depth = if small { 1 } else { 2 };
-    let base = gen_inline_log(r, fam, depth, true);
+    let mut base = gen_inline_log(r, fam, depth, true);
+    if small && fam == Family::Select {
+        // make sure the shared statement holds identifiers of sea-query's own `Alias` type next
+        // to the simulator's, so that concurrent renders on different backends meet in them
+        let a = |n: &str| IdenSpec {
+            n: n.to_string(),
+            slot: None,
+            alias: true,
+        };
+        base.ops.push(Op::Sel(SelOp::Column(ColRefSpec::TblCol(a("glyph"), a("aspect")))));
+        base.ops.push(Op::Sel(SelOp::From(TableRefSpec::Table(a("glyph")))));
+        base.ops.push(Op::Cond(CondOp::AndWhere(ExprSpec::Bin(
+            Box::new(ExprSpec::Col(ColRefSpec::Col(a("we\"ird`name")))),
+            10,
+            Box::new(ExprSpec::Val(ValSpec::Int(Some(7)))),
+        ))));
+    }
     let hi = if small { 2 } else { 5 };
-    match r.below(4) {
+    // the small (Miri) mix favours scenarios in which several threads render shared structure
+    let kind = if small {
+        match r.below(10) {
+            0 => 0,
+            1..=4 => 1,
+            5..=8 => 2,
+            _ => 3,
+        }
+    } else {
+        r.below(4)
+    };
+    match kind {
         0 => {
             let n = r.range(1, 3);
             let mut so_far = base.ops.clone();
@@ -219,15 +246,27 @@ pub fn gen_scenario(r: &mut Rng, small: bool) -> Scenario {
             }
         }
         1 => Scenario::S2 {
-            readers: (0..r.range(1, if small { 2 } else { 3 }))
-                .map(|_| (0..r.range(1, 3)).map(|_| gen_obs(r)).collect())
+            readers: (0..r.range(if small { 2 } else { 1 }, 3))
+                .enumerate()
+                .map(|(ri, _)| {
+                    (0..r.range(1, 3))
+                        .map(|_| {
+                            let mut o = gen_obs(r);
+                            if small {
+                                // concurrent readers on different backends
+                                o.backend = BACKENDS[ri % 3];
+                            }
+                            o
+                        })
+                        .collect()
+                })
                 .collect(),
             clone_ops: gen_ops(r, fam, 0, hi, &base.ops),
             clone_obs: gen_obs(r),
             base,
         },
         2 => {
-            let n = r.range(1, if small { 2 } else { 3 });
+            let n = r.range(if small { 2 } else { 1 }, 3);
             let branches = (0..n)
                 .map(|_| Branch {
                     ops: gen_ops(r, fam, 0, hi, &base.ops),
